@@ -254,12 +254,23 @@ function genTrace(spec, seed, bridge, run) {
     if (r < gcRate + finRate + dropRate + faultRate + 3) { const s = rng.below(NSLOT); ops.push({ op: "use", slot: s }); continue; }
     const dst = free();
     if (dst < 0) { ops.push({ op: "gc" }); continue; }
-    // prefer a method whose opaque inputs are available
-    const cands = spec.methods.filter((m) => (m.static || slotOf(m.owner) >= 0));
-    if (!cands.length || rng.chance(1, 3)) {
-      const o = rng.pick(spec.opaques);
-      ops.push({ op: "mk", type: o.name, dst });
-      types[dst] = o.name; continue;
+    // prefer methods whose opaque inputs are all available; otherwise construct something a method still needs
+    const needs = (m) => {
+      const out = [];
+      if (!m.static) out.push(m.owner);
+      const walkStruct = (sname) => { for (const f of spec.structs.find((x) => x.name === sname).fields) { if (f.kind === "opaque") out.push(f.ty); else if (f.kind === "struct") walkStruct(f.ty); } };
+      for (const p of m.params) { if (p.kind === "opaque") out.push(p.ty); else if (p.kind === "struct") walkStruct(p.ty); }
+      return out;
+    };
+    const have = new Set(types.filter(Boolean));
+    const cands = spec.methods.filter((m) => needs(m).every((t) => have.has(t)));
+    if (!cands.length || rng.chance(1, 4)) {
+      // something some method is still waiting for, if anything; else any opaque
+      const missing = [];
+      for (const m of spec.methods) for (const t of needs(m)) if (!have.has(t)) missing.push(t);
+      const tname = missing.length && rng.chance(3, 4) ? rng.pick(missing) : rng.pick(spec.opaques).name;
+      ops.push({ op: "mk", type: tname, dst });
+      types[dst] = tname; continue;
     }
     const m = rng.pick(cands);
     avoid = new Set([dst]);
@@ -340,9 +351,11 @@ async function execute(spec, classes, trace) {
   };
   const doCall = (fn) => { try { return { v: fn() }; } catch (err) { return { err }; } };
 
-  for (let si = 0; si < trace.ops.length && !W.violation; si++) {
-    const op = trace.ops[si]; W.step = si;
-    let line = `${si} ${JSON.stringify(op)}`;
+  // Every operation except a GC point runs in its own synchronous frame: an async function's registers survive an
+  // `await`, so wrappers touched by an operation executed inline in the loop below would stay reachable from the
+  // suspended frame during the next GC point and hide exactly the premature frees this simulation looks for.
+  const stepSync = (op, si, line0) => {
+    let line = line0;
     let did = true;
     switch (op.op) {
       case "mk": {
@@ -428,17 +441,26 @@ async function execute(spec, classes, trace) {
       case "use": if (!held[op.slot]) { did = false; break; } checkUse(held, op.slot, "used"); if (!W.violation) { const r = doCall(() => held[op.slot].w.id()); if (r.err) inc("call_threw"); } break;
       case "grow": W.armGrow = true; break;
       case "throw": W.armThrow = true; break;
-      case "gc": {
-        const n = await gcPoint(classes); inc("gc_points"); line += ` dead=${n} pending=${pending.length}`;
-        // reach probe: something a held value may borrow from is no longer held by the program itself
-        const direct = new Set(held.filter(Boolean).map((h) => h.ent));
-        let hit = false;
-        for (const h of held) if (h) for (const y of required(h.ent)) if (y.kind === "buf" || !direct.has(y)) hit = true;
-        if (hit) { reach++; inc("probe_lender_unreachable_while_borrower_held"); }
-        break;
-      }
       case "fin": { if (!pending.length) { did = false; inc("finalizer_delayed_none_pending"); break; } const e = pending.splice(op.k % pending.length, 1)[0]; runFinalizer(e); break; }
       default: did = false;
+    }
+    return { did, line };
+  };
+
+  for (let si = 0; si < trace.ops.length && !W.violation; si++) {
+    const op = trace.ops[si]; W.step = si;
+    let line = `${si} ${JSON.stringify(op)}`;
+    let did = true;
+    if (op.op === "gc") {
+        const n = await gcPoint(classes); inc("gc_points"); line += ` dead=${n} pending=${pending.length}`;
+      // reach probe: something a held value may borrow from is no longer held by the program itself
+      const direct = new Set(held.filter(Boolean).map((h) => h.ent));
+      let hit = false;
+      for (const h of held) if (h) for (const y of required(h.ent)) if (y.kind === "buf" || !direct.has(y)) hit = true;
+      if (hit) { reach++; inc("probe_lender_unreachable_while_borrower_held"); }
+    } else {
+      const r = stepSync(op, si, line);
+      did = r.did; line = r.line;
     }
     if (!did) { inc("ops_skipped"); log.push(line + " skipped"); continue; }
     executed++; inc("ops_executed");
